@@ -538,4 +538,59 @@ theorem readWholeWith_noErr (caught : Bool) (ms : MemSizes) (b : Bytes) : NoErr 
   · exact noErr_pure _
   · exact noErr_bind (readMore_noErr _ _ _) (fun _ => noErr_pure _)
 
+/-! ### the render mode (`catch_unwind` around the maps operation) changes nothing unless that operation panics -/
+
+theorem guarded_true_eq_false {α : Type} (x : M α) (h : ¬ IsPanic x) : guarded true x = guarded false x := by
+  unfold guarded M.catchUnwind
+  simp only [↓reduceIte, Bool.false_eq_true]
+  rw [M.bind_def]
+  unfold M.bind'
+  cases hres : x.res with
+  | ok a => simp [M.pure_def, M.pure']
+  | err e => rfl
+  | panic p => exact absurd ⟨p, hres⟩ h
+
+theorem readMore_caught_eq (b : Bytes) (f : Full) (h : ¬ IsPanic (readMore false b f)) : readMore true b f = readMore false b f := by
+  rw [readMore_eq, readMore_eq]
+  have hmaps : ¬ IsPanic (getStream f.base.dump b ST_LinuxMaps readMapsOut) := by
+    intro hp
+    apply h
+    rw [readMore_eq, isPanic_bind_safe (misc_getStream_safe b f.base.dump)]
+    cases hres : (getStream f.base.dump b ST_MiscInfoStream (fun s => readMiscInfoX s f.base.dump.endian)).res with
+    | panic p => exact absurd ⟨p, hres⟩ (isPanic_of_safe (misc_getStream_safe b f.base.dump))
+    | err e => exact absurd hres (getStream_noErr _ _ _ _ e)
+    | ok misc =>
+      refine ⟨misc, rfl, ?_⟩
+      rw [isPanic_bind]
+      left
+      unfold guarded
+      simp only [Bool.false_eq_true, ↓reduceIte]
+      rw [isPanic_bind]
+      exact .inl hp
+  rw [guarded_true_eq_false _ hmaps]
+
+theorem readWholeWith_caught_eq (ms : MemSizes) (b : Bytes) (h : ¬ IsPanic (readWholeWith false ms b)) :
+    readWholeWith true ms b = readWholeWith false ms b := by
+  unfold readWholeWith at h ⊢
+  cases hres : (readFull ms b).res with
+  | panic p => rw [M.bind_def, M.bind_def]; unfold M.bind'; simp only [hres]
+  | err e => rw [M.bind_def, M.bind_def]; unfold M.bind'; simp only [hres]
+  | ok r =>
+    cases r with
+    | error er => rw [M.bind_def, M.bind_def]; unfold M.bind'; simp only [hres]
+    | ok f =>
+      have hm : ¬ IsPanic (readMore false b f) := by
+        intro hp
+        apply h
+        rw [isPanic_bind]
+        right
+        refine ⟨.ok f, hres, ?_⟩
+        simp only
+        rw [isPanic_bind]
+        exact .inl hp
+      rw [M.bind_def, M.bind_def]
+      unfold M.bind'
+      simp only [hres]
+      rw [readMore_caught_eq b f hm]
+
 end MdModel.Dump
